@@ -40,7 +40,7 @@ CHECKS = {
   "The property's 'sampled uniformly' clause is replaced by the complete lattice (sampling is a different family); serde serializers drop the sign of NaN by documented design, so NaNs are compared by NaN-ness on those routes only.",
   "exhaustive enumeration of a structured bit-pattern lattice and of short number strings; round-trip and reference-model oracles"),
  "C12": ("model_checking", "enum", "5/C12",
-  "Bounded-exhaustive: every string within edit distance 1 (quick) / 2 (thorough) of 14 seed date-times over the 16-symbol date-time alphabet plus complete field sweeps is given to Datetime::from_str, Value::from_str, the document parser and the specification model, which must agree on acceptance and on every field; printed forms must be accepted by all and parse back; every Datetime over a lattice of in-range fields (87 K values) must print to text every parser reads back, also through the API and serde.",
+  "Bounded-exhaustive: every string within edit distance 2 of 14 seed date-times over the 16-symbol date-time alphabet (the thorough tier adds every substitution of 3 positions, 80 M strings) plus complete field sweeps is given to Datetime::from_str, Value::from_str, the document parser and the specification model, which must agree on acceptance and on every field; printed forms must be accepted by all and parse back; every Datetime over a lattice of in-range fields (87 K values) must print to text every parser reads back, also through the API and serde.",
   "Trusts refmodel's reading of RFC 3339 as restricted by TOML 1.0.0.",
   "exhaustive enumeration of an edit neighbourhood and a field lattice; four-way agreement oracle"),
  "C04": ("exploration", "proc", "5/C04",
